@@ -253,12 +253,12 @@ static void run_config(const char *name) {
   const bool thorough = est().thorough;
   const long N = static_cast<long>(V::kInlineCapacity);
   // every n in 1..300 from an empty vector, plus pseudo-random larger n derived from the seed
-  for (long n = 1; n <= 300; ++n) grow_case<V>(name, 0, 0, n);
+  for (long n = 1; n <= (thorough ? 3000 : 600); ++n) grow_case<V>(name, 0, 0, n);
   unsigned long long x = est().seed * 6364136223846793005ull + 1442695040888963407ull;
-  long big = thorough ? 1000000 : 50000;
-  for (int q = 0; q < (thorough ? 24 : 8); ++q) {
+  long big = thorough ? 2000000 : 50000;
+  for (int q = 0; q < (thorough ? 64 : 8); ++q) {
     x = x * 6364136223846793005ull + 1442695040888963407ull;
-    grow_case<V>(name, 0, 0, 301 + static_cast<long>((x >> 33) % static_cast<unsigned long long>(big - 300)));
+    grow_case<V>(name, 0, 0, (thorough ? 3001 : 601) + static_cast<long>((x >> 33) % static_cast<unsigned long long>(big - 3001)));
   }
   grow_case<V>(name, 0, 0, big);
   static const long ns[] = {1, 2, 7, 16, 17, 64, 100, 257, 1000};
